@@ -110,12 +110,14 @@ class Ctx:
         self.atoms = []  # root atoms: (var, arg, degree, core, isabs)
         self.dens = []  # denominators the code divided by
         self.rootargs = []  # (arg term, nn flag, degree) of every root taken
+        self.rootargs_raw = []  # same with the unsimplified argument (keeps the code's top-level addends)
         self.nonneg_pool = []
         self.solver = z3.Solver()
         self.nfresh_path = 0
         self.log = []
         self.stub_calls = []
         self.grng = None
+        self._decided = {}  # ast id -> (condition, polarity): conditions already decided on this path
 
     def fresh(self, base="k"):
         self.nfresh_path += 1
@@ -161,6 +163,12 @@ class Ctx:
             return True
         if z3.is_false(cond):
             return False
+        # a condition that was already decided on this path (e.g. the same code executed a second time on the same
+        # terms) keeps its polarity: no new decision, no solver call (the solver may answer unknown once nonlinear facts
+        # have accumulated, which would fork an infeasible twin path)
+        hit = self._decided.get(cond.get_id())
+        if hit is not None and hit[0].eq(cond):
+            return hit[1]
         i = len(self.decisions)
         if i >= self.max_depth:
             raise BudgetExceeded(f"depth>{self.max_depth}")
@@ -182,6 +190,7 @@ class Ctx:
             else:
                 raise Abort()
         self.decisions.append(d)
+        self._decided[cond.get_id()] = (cond, d)
         c = cond if d else z3.Not(cond)
         self.pc.append(c)
         self.solver.add(c)
@@ -196,22 +205,19 @@ class Ctx:
     def identical(self, a, b, timeout_ms=4000):
         if a.eq(b):
             return True
-        d = z3.simplify(a - b, som=True)
+        # sound refutation by evaluation at random rational points -- done on the unexpanded difference first
+        # (linear in the DAG size), the sum-of-monomials expansion below is exponential on deep products
+        d0 = a - b
+        refuted, evaluated = self._refute_by_evaluation(d0)
+        if refuted:
+            return False
+        d = z3.simplify(d0, som=True)
         if z3.is_rational_value(d):
-            return d.numerator_as_long() == 0
-        # sound refutation by evaluation at random rational points
-        if self.vars:
-            for _ in range(2):
-                sub = [(v, rv(Fraction(self._rnd.randint(-9, 9) or 1, self._rnd.randint(1, 7)))) for v in self.vars.values()]
-                try:
-                    val = z3.simplify(z3.substitute(d, *sub))
-                except z3.Z3Exception:
-                    break
-                if z3.is_rational_value(val):
-                    if val.numerator_as_long() != 0:
-                        return False
-                else:
-                    break
+            return _is_zero_value(d)
+        if not evaluated:
+            refuted, _ = self._refute_by_evaluation(d)
+            if refuted:
+                return False
         s = z3.Solver()
         s.set("timeout", timeout_ms)
         s.add(a != b)
@@ -221,6 +227,25 @@ class Ctx:
         self.stats.add(r, time.time() - t0)
         return r == "unsat"
 
+    def _refute_by_evaluation(self, d):
+        """(refuted, evaluated): refuted = some random rational point gives d != 0 (so the terms are not identical)"""
+        if not self.vars:
+            return False, False
+        evaluated = False
+        for _ in range(2):
+            sub = [(v, rv(Fraction(self._rnd.randint(-9, 9) or 1, self._rnd.randint(1, 7)))) for v in self.vars.values()]
+            try:
+                val = z3.simplify(z3.substitute(d, *sub))
+            except z3.Z3Exception:
+                break
+            if z3.is_rational_value(val):
+                evaluated = True
+                if not _is_zero_value(val):
+                    return True, True
+            else:
+                break
+        return False, evaluated
+
     def known_nonneg(self, t):
         for p in self.nonneg_pool:
             if p.eq(t):
@@ -229,6 +254,7 @@ class Ctx:
 
     # ---- root atoms
     def root(self, arg, degree=2, nn=False, sos=None):
+        self.rootargs_raw.append((arg, bool(nn), degree))
         arg = z3.simplify(arg)
         if z3.is_rational_value(arg):
             fr = z3val_to_fraction(arg)
@@ -276,6 +302,11 @@ class Ctx:
             else:
                 out.append((v == 0) == (a == 0))
         return out
+
+
+def _is_zero_value(v):
+    """zero test of a z3 rational value without converting a (possibly huge) numerator to a Python int"""
+    return v.numerator().as_string().lstrip("-") == "0"
 
 
 def _exact_root(fr, n):
@@ -668,6 +699,8 @@ class SR:
         return mkb(f(self.t, b.t))
 
     def __lt__(self, o):
+        if self.nn and self.c is None and _nonpos_const(o):
+            return False  # syntactically non-negative value < non-positive constant: decided without the solver
         return self._cmp(o, lambda a, b: a < b)
 
     def __le__(self, o):
@@ -677,6 +710,8 @@ class SR:
         return self._cmp(o, lambda a, b: a > b)
 
     def __ge__(self, o):
+        if self.nn and self.c is None and _nonpos_const(o):
+            return True
         return self._cmp(o, lambda a, b: a >= b)
 
     def __eq__(self, o):
@@ -726,6 +761,14 @@ class SR:
         if self.c is not None:
             return round(self.c, n)
         raise TypeError("round() of a symbolic value")
+
+
+def _nonpos_const(o):
+    if isinstance(o, SR):
+        return o.c is not None and o.c <= 0
+    if isinstance(o, (int, float, Fraction, np.integer, np.floating)) and not isinstance(o, (bool, np.bool_)):
+        return o <= 0
+    return False
 
 
 def _pf_key(pf):
@@ -898,6 +941,21 @@ class SArr(np.ndarray):
         return self._cmp(o, np.greater_equal)
 
     __hash__ = None
+
+    def __getitem__(self, key):
+        # a mask of symbolic conditions used as an index (`A[x > 0]`) is concretised: forks per entry
+        if isinstance(key, tuple):
+            if any(isinstance(k, np.ndarray) and k.dtype == object for k in key):
+                key = tuple(_concrete_mask(k) for k in key)
+        elif isinstance(key, np.ndarray) and key.dtype == object:
+            key = _concrete_mask(key)
+        return np.ndarray.__getitem__(self, key)
+
+
+def _concrete_mask(k):
+    if isinstance(k, np.ndarray) and k.dtype == object and k.size and all(isinstance(e, (SB, bool, np.bool_)) for e in k.ravel()):
+        return np.array([bool(e) for e in k.ravel()], dtype=bool).reshape(k.shape)
+    return k
 
 
 def sarr(x):
